@@ -14,6 +14,7 @@ EXPLANATION = (
     "settlement-claim bindings each gate the append; (R4) recovery recomputes the index from the log and rejects "
     "mismatching frontier digests; every rejection stays live; (R5) retry reconciliation and observation take the "
     "coordinator by shared reference and no store. Equality of recovered and uninterrupted index is NOT decided."
+    " Round 2: guard strength on the linearity gates; re-issuing a grant after a crash is gated on the next step's record being absent (recorded_request: claim; claim_grant: settlement of any kind)."
 )
 ASSUMPTIONS = ["WAL store port implementations honour their contract (C10)", "compile-fail witnesses (thorough tier) check the typestate from an external crate"]
 FLOOR = 60
